@@ -94,6 +94,9 @@ def task(W, payload):
     opts = Opts(max_strats=2, max_flows=6, allow_requests=False, allow_computed=False, allow_state=False, small_dt=True, max_steps=6, allow_rebalance=False)
     if variant == "shift":
         opts.allow_time = False; opts.allow_requests = True; opts.n_requests = 4; opts.negative_start_bias = 0.3
+    if variant == "rename":
+        # two mixing-carrying stratifications and an infection flow: the renaming below REVERSES the alphabetical order of the stratification names
+        opts.mixing_pair_bias = 0.6; opts.force_infection = True
     if variant in ("order", "swap"): opts.allow_post_flows = False
     if variant == "swap": opts.max_strats = 2; opts.force_strat = True
     g = Gen(r, opts)
@@ -137,9 +140,10 @@ def task(W, payload):
         cmap = {n: n + "z" for n in ops[0]["comps"]}
         smap = {}
         vmap = {}
+        plain_sorted = sorted(op["name"] for op in ops if op["op"] == "stratify" and op["kind"] == "plain")
         for op in ops:
             if op["op"] == "stratify":
-                if op["kind"] == "plain": smap[op["name"]] = op["name"] + "q"
+                if op["kind"] == "plain": smap[op["name"]] = "zyxwvu"[plain_sorted.index(op["name"]) % 6] + op["name"] + "q"
                 if op["kind"] != "age":
                     for s in op["strata"]: vmap[(op["name"], s)] = s + "w"
         def rn_strata(flt):
